@@ -120,4 +120,13 @@ CascadeClosure ==
 \* a decay that has returned emitted at least one particle; the daughter-level (*low) routines are exempt: a transition to
 \* the ground state has no de-excitation (the primary leptons come from the double-beta sampler)
 NonEmpty == (node = -1 /\ sch \notin LowNames) => npmin >= 1
+
+\* every conversion outcome a transition call can take is energetically possible: an outcome with a non-zero coefficient
+\* leaves the electron (the pair) a positive kinetic energy - otherwise the primitive computes the momentum of a negative
+\* energy (C04: every momentum component is finite)
+ConversionsPossible ==
+  \A i \in 1..Len(EdgesOf(sch)) :
+    LET its == EdgesOf(sch)[i].items IN
+    \A j \in DOMAIN its : \A q \in DOMAIN its[j].tr :
+      its[j].tr[q][3] = 1 => its[j].tr[q][1] > its[j].tr[q][2]
 =============================================================================
